@@ -65,7 +65,7 @@ UNITS['layoutmid_dynamic']['rlimit'] = 60   # validate_public_input of the dynam
 PROPS = {
     'C01': dict(quick=['core'], thorough=['core'],
                 claim='StarkProof::verify is proved to return Ok only if the predicate `accepted` holds: config_ok (C11, integer reading, blow-up >= 2, FRI input = evaluation domain), public input valid, every challenge equal to its Fiat-Shamir spec value, OODS vector of exactly MASK_SIZE+DEGREE values with composition-from-trace == claimed composition AT THE POSITIONS THE DEEP EVALUATION READS, all three table decommitments against the committed roots, FRI input values = DEEP combination of the DECOMMITTED cells with the SAME oods vector, every inner FRI layer decommitted against its root, last layer of 2^bound coefficients agreeing at every query. Generic in the layout through trait-level contracts.',
-                technique='chain of contracts verify -> validate, StarkDomains::new, get_hash, stark_commit -> (traces_commit, table_commit, verify_oods, fri_commit, pow commit), generate_queries, stark_verify -> (traces_decommit, table_decommit, queries_to_points, eval_oods_boundary_poly_at_points, fri_verify -> layers)',
+                technique='chain of contracts verify -> validate, StarkDomains::new, get_hash, stark_commit -> (traces_commit, table_commit, verify_oods, fri_commit, pow commit), generate_queries, stark_verify -> (traces_decommit, table_decommit, queries_to_points, eval_oods_boundary_poly_at_points, fri_verify -> layers); per-layout units check every layout impl against the trait contracts (name-based oracle for the global values of the composition wrappers, typing contract of the DEEP evaluators); bounded stand-in (labelled bounded, vf/bounded.py) for the dynamic DEEP evaluator and check_asserts',
                 note='Not decided: that `accepted` implies existence of a satisfying trace except with negligible probability (DEEP-ALI/FRI soundness, random-oracle Fiat-Shamir). Layout impls are checked against the trait contracts in the layout units: trace commit / decommit, DEEP wrapper and column counts for all 7 layouts; for the 6 static layouts also the eval_composition_polynomial wrapper, where EVERY global value handed to the autogenerated constraint evaluator is proved equal to the one its field name denotes (oracle gv_spec built by field name: initial_<b>_addr = begin of segment <B>, interaction elements, curve constants, periodic-column points, the two C15 boundary values); the DEEP evaluators bind out-of-domain value i to coefficient i (autogen units). Not under contract: the dynamic layout\'s two autogenerated evaluators and check_asserts; a BOUNDED STAND-IN (vf/bounded.py, never counted as proved) tests on the real code that the dynamic DEEP combination binds out-of-domain value k to coefficient k for all 943 positions at one pseudo-random point, and that check_asserts rejects each of the 80 column parameters at the first index outside its trace (parameters of the repository example proof).'),
     'C02': dict(quick=['core'], thorough=['core'],
                 claim='Tamper-evidence is reduced to machine-checked exact characterisations of every check that reads a proof position: configuration numbers (C11 <=>), vector lengths (oods = MASK+DEGREE exactly, cells = columns x queries exactly, last layer = 2^bound exactly, one FRI root and witness per layer at least, one value per query), decommitted cells / authentication nodes / FRI leaves / roots (table and vector decommitment <=> the Merkle walk yields the committed root; inner FRI layers included), commitments, OODS values, coefficients, nonce and public-input fields (the transcript state is proved to be the absorb chain of exactly these messages in protocol order, so every later challenge is a function of them).',
@@ -130,15 +130,15 @@ PROPS['C01']['quick'] = ['core'] + _LIGHT   # trace commit / decommit / DEEP-cal
 PROPS['C02']['quick'] = ['core'] + _LIGHT
 PROPS['C16'] = dict(quick=['core', 'autogen_recursive'], thorough=['core', 'autogen_recursive', 'autogen_dex', 'autogen_small', 'autogen_recursive_with_poseidon', 'autogen_starknet', 'autogen_starknet_with_keccak'],
     claim='For each layout covered, the UNCHANGED bodies of the autogenerated composition and DEEP evaluators type-check with the coefficient vector retyped to an abstract Coeff (usable only as one factor of a product with a field element) and the result retyped to a linear form, and the ghost contract proves every coefficient position 0..N-1 is used exactly once, in order, with no constant part; in the composition evaluators every statement `let value = E;` is numbered (rule C16_number_values: `cv(E, K)`) and `Coeff * CVal` requires position == K, so the K-th computed constraint value is weighted by coefficient K and by no other (no constraint value dropped, reused or re-weighted); in the DEEP evaluators coefficient i can only weight the quotient built from out-of-domain value i; powers_array is proved to return alpha^i, and stark_commit to pass N_CONSTRAINTS resp. MASK_SIZE+DEGREE of them. Index obligations show the evaluators read exactly mask/oods positions within the checked lengths.',
-    technique='typing + ghost-state contract (lo, hi, count, czero; CVal / OodsVal / Term position types) on eval_composition_polynomial_inner / eval_oods_polynomial_inner extracted with signature-level rewrites and one statement-level wrapper (identity on the value); functional postcondition on powers_array',
-    note='Not decided: that each term is not identically zero (needs a witness evaluation per constraint). Divisions inside the evaluators are assumed non-zero (A-fs-nonzero). Layout coverage: recursive (quick); dex, small, recursive_with_poseidon, starknet (thorough); starknet_with_keccak DEEP evaluator only (thorough, 5 min, 17 GB); the starknet_with_keccak composition evaluator and both dynamic-layout evaluators are NOT under contract (memory; the dynamic DEEP evaluator was generated and needs 35 GB and more than rlimit 200). For those three functions a BOUNDED STAND-IN runs (vf/bounded.py, labelled bounded in the evidence, never counted in obligations): a direct test of the property on the real code at one pseudo-random point - every unit coefficient vector gives a non-zero value, no two positions weight the same quantity, the map is linear with zero constant part, (DEEP) out-of-domain value k is bound by coefficient k and not read by coefficient k+1, (dynamic) switching any one builtin on or off changes the combination. It runs in the thorough tier, and in the quick tier whenever one of the covered files differs from the baseline commit.')
+    technique='typing + ghost-state contract (lo, hi, count, czero; CVal / OodsVal / Term position types) on eval_composition_polynomial_inner / eval_oods_polynomial_inner extracted with signature-level rewrites and one statement-level wrapper (identity on the value); for the three evaluators outside the verifier\'s reach a bounded stand-in (cargo property test on the real code, labelled bounded, vf/bounded.py); functional postcondition on powers_array',
+    note='Not decided: that each term is not identically zero (needs a witness evaluation per constraint). Divisions inside the evaluators are assumed non-zero (A-fs-nonzero). Layout coverage: recursive, dex, small, recursive_with_poseidon, starknet (both evaluators, quick and thorough); starknet_with_keccak DEEP evaluator only (thorough, 5 min, 17 GB); the starknet_with_keccak composition evaluator and both dynamic-layout evaluators are NOT under contract (memory; the dynamic DEEP evaluator was generated and needs 35 GB and more than rlimit 200). For those three functions a BOUNDED STAND-IN runs (vf/bounded.py, labelled bounded in the evidence, never counted in obligations): a direct test of the property on the real code at one pseudo-random point - every unit coefficient vector gives a non-zero value, no two positions weight the same quantity, the map is linear with zero constant part, (DEEP) out-of-domain value k is bound by coefficient k and not read by coefficient k+1, (dynamic) switching any one builtin on or off changes the combination. It runs in the thorough tier, and in the quick tier whenever one of the covered files differs from the baseline commit.')
 PROPS['C17'] = dict(quick=['core'], thorough=['core'],
     claim='Every loop and recursive function under contract has a machine-checked decreases clause (Verus rejects the unit otherwise) and labelled trip-count bounds tied to validated constants or the length of supplied data: queries <= 48 (config), FRI layers <= 14, coset <= 16, layer loop <= |queries|, Merkle walk consumes a node or two entries per step, Horner = |coefficients|, page product = |main page|, diluted = n_bits-1 <= 63.',
     technique='decreases clauses and loop invariants on every loop of the functions under contract (termination is an obligation of each unit)',
     note='Library loops (Poseidon, Pedersen, pow_felt <= 252 squarings, bigint conversions) are trusted fixed-size code. random_felts_to_prover loops in proportion to a field value (flagged; it has no caller on the verifier path). The sum over the call graph is a table, not a mechanised theorem.')
 PROPS['C18'] = dict(quick=['core'], thorough=['core'],
     claim='Every index, slice, unwrap/expect, assert!, panic!, integer overflow and zero-divisor site in the functions under contract is a discharged obligation; StarkProof::verify (generic layout) has no precondition beyond a 64-bit usize and a header count below usize::MAX. Interior functions require only what their callers are proved to establish.',
-    technique='implicit panic-freedom obligations generated by Verus for every function under contract, interior preconditions discharged along the verified call chain',
+    technique='implicit panic-freedom obligations generated by Verus for every function under contract, interior preconditions discharged along the verified call chain; bounded stand-in (labelled bounded, vf/bounded.py) for check_asserts of the dynamic layout',
     note='Division by the evaluation of a domain polynomial at a Fiat-Shamir point inside the autogenerated evaluators is assumed non-zero (A-fs-nonzero). Layout-specific functions: wrappers, validate_public_input and verify_public_input of all 7 layouts (dynamic: validate as a free-function copy, check_asserts assumed not to panic; its divisors are guarded by the preceding power-of-two checks - one of them, 16 * keccak_row_ratio, only semantically; the bounded stand-in vf/bounded.py also checks that it does not panic on the 164 perturbed parameter sets), safe_div; see evidence for known findings.')
 
 PROPS['C19'] = dict(quick=['cli'], thorough=['cli'],
